@@ -328,7 +328,51 @@ func stressBatch(r *rng, thorough bool) stressResult {
 				"executed": ex, "n": n, "c": c, "terminated": ok}}
 		}
 	}
-	return stressResult{OK: true, Kind: "batch", Runs: runs + tails}
+	// the limit is USABLE also across phases of an item's processing: c mutually dependent items, some of them
+	// inside their exec callback and some inside their fallback handler, must all be in flight at the same time
+	// (mode 0: item 0 sits in its fallback while items 1..c-1 sit in exec; mode 1: all c items sit in their fallback)
+	rounds := 12
+	if thorough {
+		rounds = 120
+	}
+	for it := 0; it < rounds; it++ {
+		c := 2 + r.intn(7)
+		mode := it % 2
+		var rendezvous sync.WaitGroup
+		rendezvous.Add(c)
+		arrive := func() { rendezvous.Done(); rendezvous.Wait() }
+		cn := flyt.NewNode(flyt.WithExecFallbackFunc(func(p any, err error) (any, error) {
+			arrive()
+			return "recovered", nil
+		}))
+		node := flyt.NewBatchNode()
+		node.BatchNode.CustomNode = cn.CustomNode
+		node.WithMaxRetries(1 + it%3).WithBatchConcurrency(c).WithBatchErrorHandling(true).
+			WithPrepFunc(func(ctx context.Context, s *flyt.SharedStore) ([]flyt.Result, error) {
+				items := make([]flyt.Result, c)
+				for i := range items {
+					items[i] = flyt.R(i)
+				}
+				return items, nil
+			}).
+			WithExecFunc(func(ctx context.Context, item flyt.Result) (flyt.Result, error) {
+				i := item.Value().(int)
+				if mode == 1 || i == 0 {
+					return flyt.Result{}, fmt.Errorf("item %d fails", i) // … and meets the others in its fallback
+				}
+				arrive()
+				return flyt.R(i), nil
+			}).
+			WithPostFunc(func(ctx context.Context, s *flyt.SharedStore, items, res []flyt.Result) (flyt.Action, error) {
+				return "done", nil
+			})
+		if !withTimeout(8*time.Second, func() { flyt.Run(context.Background(), node, flyt.NewSharedStore()) }) {
+			return stressResult{Kind: "batch", Runs: runs + tails + it + 1, Witness: map[string]any{
+				"what": "c mutually dependent items (exec callbacks and fallback handlers) did not all run at the same time: the batch deadlocked",
+				"c": c, "mode": mode, "budget": 1 + it%3}}
+		}
+	}
+	return stressResult{OK: true, Kind: "batch", Runs: runs + tails + rounds}
 }
 
 func stressMain(args []string) {
